@@ -2,6 +2,7 @@ import Proofs.SrcBlocks
 import Proofs.SrcChain
 import Proofs.SrcCase
 import Proofs.SrcCondErr
+import Proofs.SrcRelInclude
 import Proofs.SrcRelRender
 import Proofs.SrcCompileLines
 import Proofs.C10
@@ -1352,3 +1353,73 @@ theorem dual_up_to_line_needs_start_line (P : Prims) (O : OutPrims) (fs : FS) :
   intro h
   have := h.2.2.2
   simp at this
+
+/-! ## The duality on any number of lines, bodies with `include` tags included
+
+`if_else_unless_dual_up_to_line_source` excludes bodies that contain an `include` tag: the included file is compiled with the
+line of the include tag as its start line, so in the two forms its nodes stand at different lines. That restriction is not needed.
+Compiling a source text at another start line moves its lines and changes nothing else, errors included (`compileSource_shift`,
+Proofs/SrcShiftSource.lean: the tokenizer, the stack machine of the block parser and the compiler commute with the move), hence the
+engine's include handler is line-independent at every depth (`incRel_mkCtx`, by induction on the include fuel) and
+`lineRelI_renderNode` (Proofs/SrcRelInclude.lean) extends `lineRel_renderNode` to every compiled tree. -/
+
+/-- **C10 (`unless` is the dual of `if`), from source bytes, on any number of lines, any bodies.** For every condition text `c` and
+    ALL self-contained bodies `A`, `B` — `include` tags at any depth, any file system, any include fuel — the sources
+    `{% if c %}A{% else %}B{% endif %}` and `{% unless c %}B{% else %}A{% endunless %}` give results that agree up to the line of the
+    error (`RunResult.sameUpToLine`): the same output; or errors with the same cause, message and path flag, the lines zero together;
+    or the same panic — from any start line ≥ 1 (needed: `dual_up_to_line_needs_start_line`). -/
+theorem if_else_unless_dual_up_to_line_incl_source (P : Prims) (O : OutPrims) (cfg : Cfg) (fs : FS) (fuel : Nat) (line : Nat) (env : Env)
+    (hline : 1 ≤ line) (c : Bytes) (A B : List Item) (w1 w2 w3 w4 w5 w6 : Ws)
+    (hg : GoodDelims (Delims.ofList cfg.delims))
+    (hc1 : Clean (Delims.ofList cfg.delims) (ifElseSrc c A B w1 w2 w3))
+    (hc2 : Clean (Delims.ofList cfg.delims) (unlessElseSrc c B A w4 w5 w6))
+    (hA : Compiles (Delims.ofList cfg.delims) A 0) (hB : Compiles (Delims.ofList cfg.delims) B 0) :
+    (run P O cfg fs fuel (spell (Delims.ofList cfg.delims) (ifElseSrc c A B w1 w2 w3)) line env).sameUpToLine
+      (run P O cfg fs fuel (spell (Delims.ofList cfg.delims) (unlessElseSrc c B A w4 w5 w6)) line env) := by
+  obtain ⟨nA, hnA⟩ := hA.nodes
+  obtain ⟨nB, hnB⟩ := hB.nodes
+  rw [ifElseSrc, unlessElseSrc,
+    run_ifElse_shape P O cfg fs fuel env nmIf (.inl rfl) c A B w1 w2 w3 line hg hc1 _ _
+      (compiles_any_line _ A _ hnA) (compiles_any_line _ B _ hnB),
+    run_ifElse_shape P O cfg fs fuel env nmUnless (.inr rfl) c B A w4 w5 w6 line hg hc2 _ _
+      (compiles_any_line _ B _ hnB) (compiles_any_line _ A _ hnA)]
+  cases liftParse line true (parseExprSource c) with
+  | ok ex =>
+    generalize hlA1 : line + countNL ((tg nmIf c w1).spell (Delims.ofList cfg.delims)) = lA1
+    generalize hlB1 : lA1 + countNL (spell (Delims.ofList cfg.delims) A) + countNL ((tg nmElse [] w2).spell (Delims.ofList cfg.delims)) = lB1
+    generalize hlB2 : line + countNL ((tg nmUnless c w4).spell (Delims.ofList cfg.delims)) = lB2
+    generalize hlA2 : lB2 + countNL (spell (Delims.ofList cfg.delims) B) + countNL ((tg nmElse [] w5).spell (Delims.ofList cfg.delims)) = lA2
+    have p1 : 1 ≤ lA1 := by omega
+    have p2 : 1 ≤ lB1 := by omega
+    have p3 : 1 ≤ lB2 := by omega
+    have p4 : 1 ≤ lA2 := by omega
+    show (runRoot P O cfg fs fuel [.ifB line [(.expr line ex, relNodes (· + lA1) nA), (.always, relNodes (· + lB1) nB)]] env).sameUpToLine
+      (runRoot P O cfg fs fuel [.ifB line [(.notExpr line ex, relNodes (· + lB2) nB), (.always, relNodes (· + lA2) nA)]] env)
+    rw [← runRoot_single_congr P O cfg fs fuel _ _ env (unless_dual _ line ex (relNodes (· + lA2) nA) (relNodes (· + lB2) nB) _)]
+    apply runRoot_single_rel
+    rw [renderNode, renderNode]
+    refine relM_wrapAt _ ⟨rfl, Iff.rfl⟩ ?_ _
+    simp only [renderBranches]
+    refine relM_bind (relM_refl (R := fun a b : Bool => a = b) (fun _ => rfl) _) (fun b b' hb => ?_)
+    subst hb
+    split
+    · exact lineRel_renderBlockBody_engine P O cfg fs fuel (fun x => by constructor <;> intro h <;> omega) nA
+    · refine relM_bind (relM_refl (R := fun a b : Bool => a = b) (fun _ => rfl) _) (fun b b' hb => ?_)
+      subst hb
+      split
+      · exact lineRel_renderBlockBody_engine P O cfg fs fuel (fun x => by constructor <;> intro h <;> omega) nB
+      · exact relM_refl StatusRel.refl _
+  | err e => exact RunResult.sameUpToLine_refl _
+  | panic w => exact RunResult.sameUpToLine_refl _
+  | unmodelled w => exact RunResult.sameUpToLine_refl _
+
+/-- Non-vacuity: `{% if x %}{% include "f" %}{% else %}⏎{% endif %}` against `{% unless x %}⏎{% else %}{% include "f" %}{% endunless %}` —
+    the include tag stands at line 1 in the first source and at line 2 in the second — whatever `x` is bound to, whatever the file
+    `f` contains (or if it does not exist), for every value layer and include depth -/
+example (P : Prims) (O : OutPrims) (fs : FS) (fuel : Nat) (env : Env) :
+    (run P O {} fs fuel
+      (spell Delims.default (ifElseSrc [120] [tg nmInclude [34, 102, 34] Ws.std] [.text [10]] Ws.std Ws.std Ws.std)) 1 env).sameUpToLine
+    (run P O {} fs fuel
+      (spell Delims.default (unlessElseSrc [120] [.text [10]] [tg nmInclude [34, 102, 34] Ws.std] Ws.std Ws.std Ws.std)) 1 env) :=
+  if_else_unless_dual_up_to_line_incl_source P O {} fs fuel 1 env (by decide) [120] [tg nmInclude [34, 102, 34] Ws.std] [.text [10]]
+    Ws.std Ws.std Ws.std Ws.std Ws.std Ws.std (by decide) (by decide) (by decide) (by decide) (by decide)
